@@ -24,7 +24,11 @@ def pegGrammar : Grammar := BexprGen.PegGrammar.grammar
 
 def errToString (e : PErr) : String :=
   match e.kind with
-  | .action msg => s!"{e.off}:{hx (GoString.ofString e.rule)}:act={hx (GoString.ofString msg)}"
+  | .action msg =>
+    -- messages of code predicates are Go string-literal tokens: strip the quotes
+    let m := if msg.startsWith "\"" && msg.endsWith "\"" && msg.length ≥ 2
+      then ((msg.drop 1).dropEnd 1).toString else msg
+    s!"{e.off}:{hx (GoString.ofString e.rule)}:act={hx (GoString.ofString m)}"
   | .invalidEncoding => s!"{e.off}:{hx (GoString.ofString e.rule)}:enc"
   | .undefinedRule n => s!"{e.off}:{hx (GoString.ofString e.rule)}:undef={n}"
   | .maxExpr => "max"
